@@ -176,22 +176,7 @@ type scene struct {
 	sentinelRet  chan struct{}
 }
 
-func (s *scene) close() {
-	p := s.p
-	if p == nil {
-		return
-	}
-	p.Close()
-	// release the channels' timer goroutines; errors are irrelevant here
-	go func() {
-		defer func() { _ = recover() }()
-		_ = p.Client.Close()
-	}()
-	go func() {
-		defer func() { _ = recover() }()
-		_ = p.Server.Close()
-	}()
-}
+func (s *scene) close() { mitm.HardClose(s.p) }
 
 // produce opens a pair and lets the sender produce its chunks, which the tap
 // holds back. withSentinel adds one more message after the scripted ones.
@@ -876,6 +861,9 @@ func record(c Case, o outcome) {
 			why = why[:i]
 		}
 		rec.Case(false, 0, "harness=no-verdict", "harness=no-verdict: "+strings.TrimSpace(why))
+		if os.Getenv("VERIF_DEBUG") != "" {
+			fmt.Fprintln(os.Stderr, "no verdict:", o.Infra)
+		}
 		return
 	}
 	rec.Case(o.Nontrivial, ev.Hash(b), o.Classes...)
